@@ -224,6 +224,10 @@ impl Sim {
         }
     }
 
+    pub fn dev_state_str(&self) -> String {
+        let s = self.dev_summary();
+        s.splitn(3, ',').nth(2).unwrap_or("?").to_string()
+    }
     pub fn dev_summary(&self) -> String {
         let p = peek_device(&self.dev);
         let st = match &p.state {
